@@ -180,6 +180,14 @@ func getName(nodeSet NodeSet, ok bool, nameType nameType) (Result, error) {
 
 	firstNode := nodeSet.first()
 
+	if n, ok := firstNode.Node().(node.ProcInst); ok && nameType != namespaceOnly {
+		return String(n.Target()), nil
+	}
+
+	if n, ok := firstNode.Node().(node.Namespace); ok && nameType != namespaceOnly {
+		return String(n.Prefix()), nil
+	}
+
 	if n, ok := firstNode.Node().(node.NamedNode); ok {
 		if nameType == localOnly || (nameType == localAndNamespace && n.Space() == "") {
 			return String(n.Local()), nil
